@@ -280,8 +280,13 @@ func init() {
 		return nil
 	})
 	reg("FSRemove", func(fr *frame, a []value) value {
-		n := fr.i.fs().mk(strArg(a[0]), 0)
-		delete(n.parent.children, n.name)
+		path := strArg(a[0])
+		k := strings.LastIndex(path, "/")
+		if k <= 0 {
+			panic(engineErr{"FSRemove: need a path below a directory: " + path})
+		}
+		dir := fr.i.fs().mk(path[:k], 1)
+		delete(dir.children, path[k+1:])
 		return nil
 	})
 	reg("FSChdir", func(fr *frame, a []value) value { fr.i.fs().cwd = strArg(a[0]); return nil })
